@@ -1096,6 +1096,8 @@ struct Gen<'a> {
     counter: usize,
     /// tags defined so far (textual order): name
     tags: Vec<String>,
+    /// loose mode: names from small pools (clashes, variable reuse), fold-local tags stay visible
+    loose: bool,
 }
 
 const CMP_OPS: &[&str] = &["=", "!=", "<", "<=", ">", ">="];
@@ -1104,6 +1106,10 @@ const STR_OPS: &[&str] =
 
 impl<'a> Gen<'a> {
     fn fresh(&mut self, prefix: &str) -> String {
+        if self.loose || (prefix == "v" && self.rng.chance(1, 6)) {
+            // small pools: output/tag name clashes, variables used at several places
+            return format!("{prefix}{}", 1 + self.rng.below(3));
+        }
         self.counter += 1;
         format!("{prefix}{}", self.counter)
     }
@@ -1197,6 +1203,14 @@ impl<'a> Gen<'a> {
         let mut dirs = vec![];
         let saved_tags = self.tags.len();
         let mut folded = false;
+        let mut count_tags: Vec<String> = vec![];
+        if self.loose && self.rng.chance(1, 6) {
+            // directive mixes the frontend rejects
+            dirs.push(d(*self.rng.pick(&["optional", "recurse"]), vec![]));
+            if dirs[0].name == "recurse" {
+                dirs[0].args.push(Arg { name: "depth".into(), value: GVal::Int(2) });
+            }
+        }
         match self.rng.below(10) {
             0 | 1 => dirs.push(d("optional", vec![])),
             2 => dirs.push(d("recurse", vec![("depth", GVal::Int(1 + self.rng.below(3) as i128))])),
@@ -1221,9 +1235,14 @@ impl<'a> Gen<'a> {
                             dirs.push(d("filter", vec![("op", s(op)), ("value", GVal::List(vec![s(&v)]))]));
                         }
                         _ => {
-                            let nm = self.fresh("ct");
-                            dirs.push(d("tag", vec![("name", s(&nm))]));
-                            // usable by later siblings of the parent component
+                            if self.loose && self.rng.chance(1, 4) {
+                                dirs.push(d("tag", vec![]));
+                            } else {
+                                let nm = self.fresh("ct");
+                                dirs.push(d("tag", vec![("name", s(&nm))]));
+                                // usable by later siblings of the parent component
+                                count_tags.push(nm);
+                            }
                         }
                     }
                 }
@@ -1231,10 +1250,11 @@ impl<'a> Gen<'a> {
             _ => {}
         }
         let sels = self.vertex(&f.ty.base, depth + 1);
-        if folded {
+        if folded && !(self.loose && self.rng.chance(1, 2)) {
             // tags defined inside a fold are not visible outside
             self.tags.truncate(saved_tags);
         }
+        self.tags.extend(count_tags);
         Sel::Field(FieldSel { alias, name: f.name.clone(), args, dirs, sels })
     }
     fn vertex(&mut self, type_name: &str, depth: usize) -> Vec<Sel> {
@@ -1325,7 +1345,8 @@ fn strip_unused_tags(ss: &mut [Sel], used: &std::collections::BTreeSet<String>) 
 
 pub fn gen_valid(rng: &mut Rng, si: &SchemaInfo) -> Doc {
     let keep_unused = rng.chance(1, 10);
-    let mut g = Gen { rng, si, counter: 0, tags: vec![] };
+    let loose = rng.chance(1, 6);
+    let mut g = Gen { rng, si, counter: 0, tags: vec![], loose };
     let mut doc = g.doc();
     if !keep_unused {
         // unused tags are an error: drop them so that most generated queries compile
